@@ -1103,6 +1103,28 @@ func c13kube(c *Ctx) {
 					return false, "the set is rebuilt from something other than the new object"
 				}
 			}
+			if len(us) == 0 && p.Exit == px.ExitReturn {
+				// an update is dropped only for a foreign object or for an unchanged resource version —
+				// versions are opaque strings: any ordering of them (seed r3-C13-2: `new <= old`, which is
+				// lexicographic) drops real updates ("9" → "10") and the view keeps stale addresses
+				why := ""
+				for _, b := range p.All(px.KindIs(px.EvBranch)) {
+					cnd := b.Cond.Strip(true)
+					if cnd.Kind == px.KExtract && cnd.Index == 1 && cnd.X != nil && cnd.X.Kind == px.KTypeAssert && !b.Taken {
+						why = "foreign"
+					}
+					if cnd.Kind == px.KBinOp && px.IsFieldLoad(cnd.X, "ResourceVersion", nil) && px.IsFieldLoad(cnd.Y, "ResourceVersion", nil) {
+						if (cnd.Op == token.EQL && b.Taken) || (cnd.Op == token.NEQ && !b.Taken) {
+							why = "same version"
+						} else if cnd.Op != token.EQL && cnd.Op != token.NEQ {
+							return false, fmt.Sprintf("resource versions are compared with %s: they are opaque strings, an ordered (lexicographic) comparison drops genuine updates such as \"9\" → \"10\"", cnd.Op)
+						}
+					}
+				}
+				if why == "" {
+					return false, "an update of a well-typed pair of objects is dropped although their resource versions were not found equal"
+				}
+			}
 			return true, ""
 		})
 	}
